@@ -118,9 +118,16 @@ let validate (pts : bool) (prefix : act list) (later : act list list) (progs : a
     chk "quit" (if g.quit then 1 else 0);
     chk "call" (if g.calling then 1 else 0);
     chk "loop" (if g.looping then 1 else 0) in
+  (* an instrumentation point is a place where the scheduler MAY switch, not an event of the program:
+     when the implementation did not pass it (e.g. `!looping_ || ... || !isInLoopThread()` short-circuits
+     before the instrumented call) the thread's next visible step releases the model's thread as well *)
+  let rec skip_point x =
+    match snd (next x) with
+    | Some _ when pts && not passed.(x) -> passed.(x) <- true; eager x; skip_point x
+    | _ -> () in
   let need x k what =
-    if blocked x then rej "T%d performs %s but the model is still before its point %s" x what
-        (match snd (next x) with Some p -> p | None -> "?");
+    skip_point x;
+    if blocked x then rej "T%d performs %s but the model is held before loop() is entered / has returned / a callback starts" x what;
     if fst (next x) <> k then rej "T%d performs %s, the model's next visible step of that thread is different" x what in
   let handle (line : string) =
     let w = split_ws line in
@@ -135,11 +142,13 @@ let validate (pts : bool) (prefix : act list) (later : act list list) (progs : a
     | ["e"; "T0"; "go"] -> started.(0) <- true; eager 0
     | ["e"; tx; "x"; t] ->
         if tnum tx <> 0 then rej "task %s executed on T%d, not on the loop thread" t (tnum tx);
+        if Queue.is_empty expected then skip_point 0;
         if Queue.is_empty expected then rej "implementation runs task %s, the model runs none here" t;
         let e = Queue.pop expected in
         if e <> "x " ^ t then rej "implementation runs task %s, the model runs '%s'" t e
     | ["e"; "T0"; "enter"] -> incr enter_tok; eager 0
     | ["e"; "T0"; "loop-returned"] ->
+        (match !st.pc with LDone -> () | _ -> skip_point 0);
         (match !st.pc with LDone -> () | _ -> rej "loop() returned, the model's loop thread has not reached its exit");
         incr ret_tok; eager 0
     | ["e"; "T0"; "cb"; _] -> cb_wait := false; eager 0
@@ -155,6 +164,7 @@ let validate (pts : bool) (prefix : act list) (later : act list list) (progs : a
          | "point" when obj = "user" || obj = "before_pool_destroy" -> ()
          | "point" ->
              if not pts then rej "point %s in a run without points" obj;
+             (match snd (next x) with Some p when p <> obj && not passed.(x) -> skip_point x | _ -> ());
              (match snd (next x) with
               | Some p when p = obj && not passed.(x) -> passed.(x) <- true
               | _ -> rej "T%d is at point %s, the model's thread is not" x obj);
@@ -184,7 +194,7 @@ let validate (pts : bool) (prefix : act list) (later : act list list) (progs : a
              need 0 KPoll "a poll time-out";
              if poll_ready !st.sg then rej "the implementation is stuck in poll, the model's poll is ready";
              check_obs obs; stuck := true
-         | "exit" -> if x > 0 && fst (next x) <> KEnd then rej "T%d exits, the model's thread has code left" x
+         | "exit" -> if x > 0 then skip_point x; if x > 0 && fst (next x) <> KEnd then rej "T%d exits, the model's thread has code left" x
          | "create" | "join" | "lock" | "unlock" | "after" -> ()
          | k -> rej "unexpected trace kind %s" k)
     | "t" :: _ -> ()
